@@ -17,7 +17,7 @@ for d in sorted(glob.glob(os.path.join(V, 'seeded', pid + '*'))):
         elif ln.startswith('@@') and cur:
             used.append(cur)
 used = sorted(set(used))
-print(f"""You are helping to test a verification framework for the open-source project lakiw/pcfg_cracker (a PCFG password-guess generator: a trainer that segments leaked passwords into a probabilistic grammar, a guesser that enumerates guesses in probability order, a scorer, PRINCE-LING and edit_rules). You have your own scratch git worktree of the project at {wt} — work ONLY inside that directory (never touch /repo or /verif, never commit). Python is /venv/bin/python; the project's test suite is run with `cd {wt} && /venv/bin/python -m pytest -q -p no:cacheprovider` (75 tests, all must still pass).
+print(f"""You are helping to test a verification framework for the open-source project lakiw/pcfg_cracker (a PCFG password-guess generator: a trainer that segments leaked passwords into a probabilistic grammar, a guesser that enumerates guesses in probability order, a scorer, PRINCE-LING and edit_rules). You have your own scratch git worktree of the project at {wt} — work ONLY inside that directory: never read, list or modify anything under /repo or /verif (they do not concern you), never commit. Python is /venv/bin/python; the project's test suite is run with `cd {wt} && /venv/bin/python -m pytest -q -p no:cacheprovider` (75 tests, all must still pass).
 
 Here is one semantic property the project is supposed to satisfy (JSON record):
 
